@@ -191,6 +191,40 @@ def optable(tier, rng):
         add("bin:and:guard-lit:%s" % bn, bin_("and", lit(W(False)), b), TW, su)
         add("bin:or:guard-nested:%s" % bn, bin_("or", bin_("and", lit(W(False)), b), bin_("or", lit(W(True)), b)), TW, su)
         add("stmt:if:guard:%s" % bn, ident("sn"), TZ, su + [if_(bin_("and", bin_("ne", ident("sk"), zl(0)), b), [setv(lvid("sn"), zl(1))])])
+    # operator chains WITHOUT parentheses: the value is the one of the precedence tree (spec/syntax/Precedence.tla)
+    csu = [var("pa", TZ, zl(7), False), var("pb", TZ, zl(3), False), var("pc", TZ, zl(2), False), var("pd", TZ, zl(5), False),
+           var("qa", TW, lit(W(True)), False), var("qb", TW, lit(W(False)), False)]
+
+    def chain(*items):
+        return {"k": "chain", "items": [ident(x) if isinstance(x, str) and x[0] in "pq" and len(x) == 2 else ({"o": x} if isinstance(x, str) else x) for x in items]}
+    arith = ("plus", "minus", "mal", "mod")
+    for o1, o2 in itertools.product(arith, arith):
+        add("chain:arith:%s:%s" % (o1, o2), chain("pa", o1, "pb", o2, "pc"), TZ, csu)
+    for o1, o2, o3 in (("plus", "mal", "minus"), ("minus", "minus", "minus"), ("mal", "plus", "mal"), ("minus", "mal", "mod"), ("mod", "plus", "mod"), ("minus", "plus", "minus")):
+        add("chain:arith4:%s:%s:%s" % (o1, o2, o3), chain("pa", o1, "pb", o2, "pc", o3, "pd"), TZ, csu)
+    bitw = ("band", "bor", "bxor")
+    for o1, o2 in itertools.product(bitw, bitw):
+        add("chain:bit:%s:%s" % (o1, o2), chain("pa", o1, "pb", o2, "pd"), TZ, csu)
+    for o1, o2 in itertools.product(bitw, ("plus", "mal")):
+        add("chain:bit-arith:%s:%s" % (o1, o2), chain("pa", o1, "pb", o2, "pd"), TZ, csu)
+        add("chain:arith-bit:%s:%s" % (o2, o1), chain("pa", o2, "pb", o1, "pd"), TZ, csu)
+    for va, vb, vc in itertools.product((True, False), repeat=3):
+        su3 = [var("qa", TW, lit(W(va)), False), var("qb", TW, lit(W(vb)), False), var("qc", TW, lit(W(vc)), False)]
+        add("chain:bool:or-and:%d%d%d" % (va, vb, vc), chain(ident("qa"), "or", ident("qb"), "and", ident("qc")), TW, su3)
+        add("chain:bool:and-or:%d%d%d" % (va, vb, vc), chain(ident("qa"), "and", ident("qb"), "or", ident("qc")), TW, su3)
+        add("chain:bool:not-and:%d%d%d" % (va, vb, vc), chain("not", ident("qa"), "and", ident("qb")), TW, su3)
+        add("chain:bool:not-or:%d%d%d" % (va, vb, vc), chain("not", ident("qa"), "or", ident("qb"), "and", "not", ident("qc")), TW, su3)
+    for cmp_ in ("lt", "le", "gt", "ge", "eq", "ne"):
+        add("chain:cmp:arith:%s" % cmp_, chain("pa", "plus", "pb", cmp_, "pc", "mal", "pd"), TW, csu)
+        add("chain:cmp:and:%s" % cmp_, chain("pa", cmp_, "pb", "and", "pc", "lt", "pd"), TW, csu)
+        add("chain:cmp:or-and:%s" % cmp_, chain("qb", "or", "pa", cmp_, "pa", "and", "pb", "minus", "pc", cmp_, "pd", "mod", "pc"), TW, csu)
+    add("chain:neg:mal", chain("neg", "pa", "mal", "pb"), TZ, csu)
+    add("chain:neg:plus", chain("neg", "pa", "plus", "pb"), TZ, csu)
+    add("chain:neg:minus-neg", chain("pa", "minus", "neg", "pb", "mal", "pc"), TZ, csu)
+    add("chain:durch:mal", chain(zl(8), "durch", zl(2), "mal", zl(4)), TK)
+    add("chain:durch:durch", chain(zl(64), "durch", zl(4), "durch", zl(2)), TK)
+    add("chain:plus:durch", chain(zl(1), "plus", zl(6), "durch", zl(4)), TK)
+    add("chain:cat", chain(lit(T("a")), "cat", lit(T("ö")), "cat", lit(C("c")), "cat", lit(T(""))), TT)
     # texts and characters
     for i, s in enumerate(TBV):
         add("un:len:t%d" % i, un("len", lit(T(s))), TZ)
